@@ -191,7 +191,7 @@ HOSTILE_CHARS = ".+[](){}^$|\\*?\"' -_:;<>#%&=~`,!@/"
 PLAIN_CHARS = "abcdeXYZ019"
 # characters on which upper/lower/casefold/re.IGNORECASE agree pairwise
 CASE_PAIRS = "aAbBzZéÉжЖ"
-NONASCII = "éÉжЖü中\U0001f600"
+NONASCII = "éÉжЖü中\U0001f600\u0301\u212b\u2126\u030a"  # incl. combining marks and code points that Unicode normalisation would rewrite
 
 
 def random_name(rng, sep="/", hostile=True, maxlen=5, forbid=("", ".", "..")):
@@ -264,7 +264,7 @@ def random_json_value(rng, depth=0):
     if r < 0.42:
         return rng.choice([0.0, -0.0, 1.5, 1e308, 5e-324, -2.5e-10, 0.1, 1 / 3, rng.uniform(-1e6, 1e6)])
     if r < 0.6:
-        pool = "ab \"\\/\n\t\r\x00\x1f\x7f\u00e9\u0436\u2028\u2029\x85\u00a0\ufeff\U0001f600"  # incl. the line separators str.splitlines knows
+        pool = "ab \"\\/\n\t\r\x00\x1f\x7f\u00e9\u0436\u2028\u2029\x85\u00a0\ufeff\U0001f600e\u0301\u212b\u2126A\u030a"  # incl. the line separators str.splitlines knows
         return "".join(rng.choice(pool) for _ in range(rng.randint(0, 6)))
     if r < 0.8:
         return [random_json_value(rng, depth + 1) for _ in range(rng.randint(0, 3))]
